@@ -364,10 +364,14 @@ static void do_spawn()
 // its input and has its stdin closed; then the second child is opened with all three streams (descriptor numbers freed by
 // the first are taken again); then the first is drained and joined, then the second.  Each child's streams and exit code
 // must be its own (one Process must not touch descriptors that belong to another).
+// An optional 7th argument 1 opens the second child BEFORE the first child's stdin is closed: the first child must still see
+// the end of its input when the parent closes the stream (a descriptor of one Process must not leak into another child), or
+// its output can never be read up to end-of-file.
 static void do_spawn2()
 {
   int code1 = (int)tok_int(); long nin1 = tok_int(), nout1 = tok_int();
   int code2 = (int)tok_int(); long nout2 = tok_int(), nerr2 = tok_int();
+  const char* e = tok_next(); int early = e && e[0] == '1';
   char d1[128], d2[128];
   snprintf(d1, sizeof(d1), "c%d,i%ld,o%ld,e0", code1, nin1, nout1);
   snprintf(d2, sizeof(d2), "c%d,i0,o%ld,e%ld", code2, nout2, nerr2);
@@ -391,8 +395,9 @@ static void do_spawn2()
       if(w <= 0) { if(w < 0 && errno == EINTR) continue; break; }
       sent += w;
     }
+    if(early) st2 = second.open(exe, 4, a2, s2, env);
     first.close(Process::stdinStream);
-    st2 = second.open(exe, 4, a2, s2, env);
+    if(!early) st2 = second.open(exe, 4, a2, s2, env);
     if(drain(first, Process::stdoutStream, &go1, &oko1, &ge1, &oke1) != 0) rd1 = 0;
     jr1 = first.join(xc1);
     if(st2)
